@@ -115,7 +115,7 @@ def run(prop: str, tier: str) -> int:
         "decoders are deterministic functions of the text they are given (checked: a text searched twice must yield equal hits)",
     ]
     # 1. the specification itself
-    engine.model_check(res, ["q"] if tier == "quick" else ["q", "t3", "t4", "t2", "n4"])
+    engine.model_check(res, ["q"] if tier == "quick" else ["q", "t3", "t4", "t2", "n4", "c4"])
     if prop in ASIS_BREAKS:
         engine.non_vacuity(res, ASIS_BREAKS[prop])
     res.coverage["properties_checked_by_tlc"] = INV_OF[prop]
@@ -134,8 +134,11 @@ def run(prop: str, tier: str) -> int:
         p4 = os.path.join(work, "worlds-n4.ndjson")
         _t, n4 = engine.replay_worlds("n4", 1500, p4, lo=(prop == "C07"), subs=(prop == "C08"))
         jobs.append((p4, n4))
+        p5 = os.path.join(work, "worlds-c4.ndjson")
+        _t, n5 = engine.replay_worlds("c4", 1500, p5, lo=(prop == "C07"), subs=(prop == "C08"))
+        jobs.append((p5, n5))
     if tier == "thorough":
-        for fam in ("t3", "t4", "t2", "n4"):
+        for fam in ("t3", "t4", "t2", "n4", "c4"):
             p2 = os.path.join(work, f"worlds-{fam}.ndjson")
             _t, n2 = engine.replay_worlds(fam, 15000, p2, lo=(prop == "C07"), subs=(prop == "C08"))
             jobs.append((p2, n2))
